@@ -106,4 +106,9 @@ def roundTripOp : List String → Option String
     | _, _ => pure "unspecified"
   | _ => none
 
+/-- `rtrespc`: the response reaches the client in pieces: what the client sees does not depend on them -/
+def roundTripCutOp : List String → Option String
+  | "rtrespc" :: _cuts :: rest => roundTripOp ("rtresp" :: rest)
+  | _ => none
+
 end Drv
